@@ -676,6 +676,9 @@ Spec2 == Init /\ [][Next2]_vars
 \* the snapshots of the real cache directory after a real kill at every file-system call
 EmitCrash == (crashed # {}) => PrintT(ToJson([ex |-> ex, ct |-> {<<x, ct[x]>> : x \in DOMAIN ct \cap ex}]))
 
+\* final-state conformance (C11): every file-system state the model can end in when all participants have finished
+EmitFinal == (\A p \in Procs : p \in stopped) => PrintT(ToJson([ex |-> ex, ct |-> {<<x, ct[x]>> : x \in DOMAIN ct \cap ex}]))
+
 FinalNameComplete == \A k \in Keys : Out(k) \in ex => ct[Out(k)][1] # "partial"
 
 CallsCorrectModulo ==
